@@ -61,7 +61,9 @@ QUICK_N = 300
 THOROUGH_N = 3000
 SHARD = 60
 DRIVER_TIMEOUT = 600
-RULE = ("stat.Metrics scripts vary (stat log switch on / off) x (logx stat switch on / off, own driver process) x (report "
+RULE = ("6 retire scripts per run (Add; a caller-side Flush whose execute is held; ticks over an idle period until the "
+        "background flusher quits while that execute still runs; Wait from a third goroutine; later Adds restart a flusher); "
+        "stat.Metrics scripts vary (stat log switch on / off) x (logx stat switch on / off, own driver process) x (report "
         "writer installed before the adds / after the first period's adds but before its flush / after its flush); "
         "6 independence scripts per run (executors with explicit WithBulkTasks / WithChunkBytes / interval options are created "
         "and used first, then the observed Bulk / Chunk executor is created WITHOUT options: 1000+k tasks resp. 0.1-1 MiB "
@@ -376,6 +378,32 @@ def _hold_case(rng):
     return {"chunk": chunk, "max": mx, "ops": ops}
 
 
+def _retire_case(rng):
+    """Add; a slow caller-side Flush (execute held); ticks over an idle period until the background flusher RETIRES
+    (guarded false) while that execute is still running; Wait from a third goroutine; later Adds restart a flusher"""
+    chunk = rng.random() < 0.4
+    mx = rng.choice([10, 13, 20]) if chunk else rng.choice([3, 4, 5])
+    ids = _Ids()
+
+    def small():
+        o = {"op": "add", "id": ids.next()}
+        if chunk:
+            o["size"] = rng.randint(0, 3)
+        return o
+
+    ops = [small() for _ in range(rng.randint(1, 2))]
+    during = [small() for _ in range(rng.randint(0, 1))]
+    idle = rng.choice([11, 11, 12, 25, 9])
+    inhold = [{"op": "tick"}, {"op": "advance", "n": idle}, {"op": "tick"}]
+    if rng.random() < 0.4:
+        inhold.append({"op": "tick"})
+    ops.append({"op": "holdexec", "via": "flush", "waiter": True, "during": during, "inhold": inhold})
+    for _ in range(rng.randint(0, 3)):
+        ops.append(small())
+    ops += [{"op": "tick"}, {"op": "tick"}, {"op": "wait"}]
+    return {"chunk": chunk, "max": mx, "ops": ops}
+
+
 def _before(rng, first=None):
     """executors created (with explicit options) before the observed one"""
     out = [first] if first else []
@@ -443,7 +471,7 @@ def _users(rng, tier):
 
 
 def generate(rng, tier, n):
-    cases = _directed(rng) + _indep_cases(rng, tier) + _users(rng, tier) + [_hold_case(rng) for _ in range(HOLD_N * (4 if tier == "thorough" else 1))]
+    cases = _directed(rng) + _indep_cases(rng, tier) + [_retire_case(rng) for _ in range(6 if tier != "thorough" else 24)] + _users(rng, tier) + [_hold_case(rng) for _ in range(HOLD_N * (4 if tier == "thorough" else 1))]
     if tier == "thorough":
         cases += _exhaustive()
     while len(cases) < n:
@@ -638,6 +666,8 @@ def encode(case, obs):
                 ops.append({"tick": "STick", "flush": "SFlush", "wait": "SWait"}[o["via"]])
                 for d in o["during"]:
                     ops.append("SAdd %s" % cnat(d["id"]))
+                for h in o.get("inhold", []):
+                    ops.append("STick" if h["op"] == "tick" else "SAdvance %s" % cZ(h["n"] * SECOND))
                 if o.get("waiter"):
                     ops.append("SWait")
             elif k == "add":
